@@ -236,7 +236,7 @@ CHECKS["C01"] = dict(
     text="Lean: three executable pieces — the reference semantics of the parsed tree (RefSem: documents/specs applied to the Structure "
          "tree, every structure and modifier of the property, flags, implicit output), the model of transpile.py (Transpile, element "
          "and modifier templates regenerated from the source), and a semantics of the emitted Python fragment (PySem) — and the "
-         "compiler-correctness theorems simulation / call_protocol / named_call_protocol / compile_correct: for EVERY program over the covered "
+         "compiler-correctness theorems simulation / call_protocol / named_call_protocol / compile_correct / compile_correct_source (the same from ANY source string whose lexed tokens are covered: the parser only puts input tokens into the tree, parse_allTok): for EVERY program over the covered "
          "element tokens (EVERY STRUCTURE AND MODIFIER of the property: integer literals; every element whose table entry is the process_element boilerplate of a first-order function — "
          "237 entries —; the 21 hand-written stack / context / input / register / printing templates; global variables; if chains of "
          "any length; for over numbers / lists with unnamed / named / ghost loop variable; while with and without a condition; break / "
